@@ -48,6 +48,21 @@ def generate(seed, tier, index):
     for attempt in range(25):
         cand = gen.gen_spec(rs.sub("c07try", attempt), spec_p)
         mm = Model(cand)
+        if rs.sub("c07zero", attempt).chance(0.15):
+            # zero-order creation into (partly) empty space: channels whose propensity does not depend on the state
+            zr = rs.sub("c07zero2", attempt)
+            lab = zr.choice([s_["label"] for s_ in cand["species"]])
+            ctyp_ = max(1.0, float(abs(mm.x0).mean())) / float(mm.V.mean())
+            kz = zr.loguniform(0.05, 1.0) * ctyp_
+            cand["reactions"] = (cand["reactions"] + [{"label": None, "sub": {}, "prod": {lab: 1},
+                                                      "kf": [kz] * len(cand["envs"]), "kr": [0.0] * len(cand["envs"])}])[-3:]
+            st_ = [float(v) for v in mm.x0.ravel()]
+            empty_cells = [i for i in range(mm.nc) if zr.chance(0.5)]
+            for s_i in range(mm.ns):
+                for i in empty_cells:
+                    st_[s_i * mm.nc + i] = 0.0
+            cand["state"] = st_
+            mm = Model(cand)
         if mm.free.mean() >= 0.6 and mm.a0(mm.x0) > 0:
             spec = cand
             break
